@@ -33,6 +33,8 @@ B = LIB.builtin
 def _len(E, v):
     from ..tensor import Tensor
 
+    if isinstance(v, C.OpaqueList):
+        raise Unsupported("len() of a list with unknown contents (appended to inside a cut loop)")
     if isinstance(v, (list, tuple, dict, set, str, frozenset)):
         return len(v)
     if isinstance(v, NamedTuple):
